@@ -120,6 +120,8 @@ class _Expr(ast.NodeTransformer):
     def visit_IfExp(self, n):
         self.generic_visit(n)
         n.test = _truth(n.test)
+        if isinstance(n.test, ast.Constant) and isinstance(n.test.value, (bool, int, str, type(None))):
+            return n.body if n.test.value else n.orelse          # a decided choice (a flag parameter written out) is its arm
         if _is_negated(n.test):
             n.test, n.body, n.orelse = negate(n.test), n.orelse, n.body
         return n
